@@ -136,12 +136,17 @@ theorem flushLoop_nil {σ : Type} (W : Writer σ) (w : σ) : flushLoop W w [] = 
 
 /-- When the callback takes everything it is offered the region goes out in one piece. -/
 theorem flushLoop_full {σ : Type} (W : Writer σ) (w : σ) (p : List Cell) :
-    (∀ e ∈ (flushLoop W w p).2.1, e.ret = e.offer.length) → ∀ e ∈ (flushLoop W w p).2.1, e.offer = p := by
+    (∀ e ∈ (flushLoop W w p).2.1, e.ret = e.offer.length) →
+    (flushLoop W w p).2.1 = if p.length = 0 then [] else [⟨p, p.length⟩] := by
   fun_induction flushLoop W w p with
-  | case1 w p hp => simp
-  | case2 w p hp hr => simp
+  | case1 w p hp => simp [hp]
+  | case2 w p hp hr =>
+    intro h
+    have := h ⟨p, (W.ask w p).1⟩ (by simp)
+    simp only [] at this
+    omega
   | case3 w p hp hr t ih =>
-    intro h e he
+    intro h
     have h1 := h ⟨p, (W.ask w p).1⟩ (by simp)
     simp only [] at h1
     have h2 : p.drop (W.ask w p).1.toNat = [] := by
@@ -149,9 +154,7 @@ theorem flushLoop_full {σ : Type} (W : Writer σ) (w : σ) (p : List Cell) :
     have h3 : t.2.1 = [] := by
       show (flushLoop W _ (p.drop (W.ask w p).1.toNat)).2.1 = []
       rw [h2, flushLoop_nil]
-    rw [h3] at he
-    simp only [List.mem_singleton] at he
-    rw [he]
+    rw [h3, if_neg hp, h1]
 
 /-! ### directLoop -/
 
@@ -457,7 +460,11 @@ theorem clientWrite_spec {σ : Type} (W : Writer σ) (w : σ) (s : CState) (d : 
             show c ∈ pending s ++ d
             rw [hsplit]; exact List.mem_append_left _ hc
           · intro _ hall e he
-            rw [hFl hall e he, List.take_length]; simp only [CState.bufSize, hblen]
+            rw [hFl hall] at he
+            split at he
+            · simp at he
+            · simp only [List.mem_singleton] at he; subst he
+              simp only [List.length_take, CState.bufSize, hblen]; omega
         | true =>
           have hnb : ¬ ∃ e ∈ evs, e.bad := by
             intro h; have := hSt.mpr h; cases this
@@ -502,8 +509,11 @@ theorem clientWrite_spec {σ : Type} (W : Writer σ) (w : σ) (s : CState) (d : 
           · intro c hc; rw [hsplit]; exact List.mem_append_right _ (t9 c hc)
           · intro _ hall e he
             rcases List.mem_append.mp he with he | he
-            · rw [hFl (fun e he => hall e (List.mem_append_left _ he)) e he, List.take_length]
-              simp only [CState.bufSize, hblen]
+            · rw [hFl (fun e he => hall e (List.mem_append_left _ he))] at he
+              split at he
+              · simp at he
+              · simp only [List.mem_singleton] at he; subst he
+                simp only [List.length_take, CState.bufSize, hblen]; omega
             · have := t10 (by simp only [CState.bufSize, hblen]; exact hbpos)
                 (fun e he => hall e (List.mem_append_right _ he)) e he
               rw [this]; simp only [CState.bufSize, hblen]
@@ -536,5 +546,222 @@ theorem clientWrite_spec {σ : Type} (W : Writer σ) (w : σ) (s : CState) (d : 
     · simp only [hf, if_false]
       have hfill : s.fill = 0 := by simp only [WInv] at hw; omega
       exact writeTail_spec W w s d ⟨hw, by omega⟩ hbpos (Or.inl hfill)
+
+/-! ### close -/
+
+/-- Number of zero bytes `archive_write_client_close` appends to `fill` pending bytes. -/
+def padLen (bpb : Nat) (bil : Int) (fill : Nat) : Nat :=
+  if fill = 0 then 0 else lastBlockLen bpb bil fill - fill
+
+theorem lastBlockTarget_le (bpb : Nat) (bil : Int) (n : Nat) : lastBlockTarget bpb bil n ≤ bpb := by
+  unfold lastBlockTarget; simp only []
+  split
+  · split <;> omega
+  · split <;> omega
+
+theorem lastBlockLen_ge (bpb : Nat) (bil : Int) (n : Nat) : n ≤ lastBlockLen bpb bil n := by
+  unfold lastBlockLen; split <;> omega
+
+theorem lastBlockLen_le (bpb : Nat) (bil : Int) (n : Nat) (h : n ≤ bpb) : lastBlockLen bpb bil n ≤ bpb := by
+  unfold lastBlockLen; have := lastBlockTarget_le bpb bil n; split <;> omega
+
+/-- The last block as handed to the callback: the pending bytes and the zero fill. -/
+def lastBlock (s : CState) (bpb : Nat) (bil : Int) : List Cell :=
+  pending s ++ List.replicate (padLen bpb bil s.fill) (some 0)
+
+/-- What `archive_write_client_close` guarantees. -/
+structure CloseSpec {σ : Type} (s : CState) (bpb : Nat) (bil : Int) (r : St × List Event × σ) : Prop where
+  not_oob : r.1 ≠ .oob
+  ok : r.1 = .ok → taken r.2.1 = lastBlock s bpb bil
+  pre : taken r.2.1 <+: lastBlock s bpb bil
+  status : r.1 = .fatal ↔ ∃ e ∈ r.2.1, e.bad
+  resumes : ∀ S t, lastBlock s bpb bil <+: S.drop t → Resumes S t r.2.1
+  offers : ∀ e ∈ r.2.1, ∀ c ∈ e.offer, c ∈ lastBlock s bpb bil
+  full : (∀ e ∈ r.2.1, e.ret = e.offer.length) →
+    r.2.1 = if s.fill = 0 then [] else [⟨lastBlock s bpb bil, (lastBlock s bpb bil).length⟩]
+  none : s.fill = 0 → r.2.1 = []
+
+theorem clientClose_spec {σ : Type} (W : Writer σ) (w : σ) (s : CState) (bpb : Nat) (bil : Int)
+    (hw : WInv s) (hbpb : bpb = s.bufSize) : CloseSpec s bpb bil (clientClose W w s bpb bil) := by
+  unfold clientClose
+  by_cases hf : s.fill = 0
+  · simp only [hf, ne_eq, not_true_eq_false, if_false]
+    have hlb : lastBlock s bpb bil = [] := by simp [lastBlock, padLen, pending, hf]
+    exact ⟨by simp, by simp [hlb], by simp, by simp, fun _ _ _ => trivial, by simp, by simp [hf], by simp⟩
+  · simp only [hf, ne_eq, not_false_eq_true, if_true]
+    have hbl : s.bufSize - (s.bufSize - s.fill) = s.fill := by simp only [WInv] at hw; omega
+    rw [hbl]
+    have htl := lastBlockTarget_le bpb bil s.fill
+    have hlen_le := lastBlockLen_le bpb bil s.fill (by rw [hbpb]; exact hw)
+    -- the padded buffer
+    have hpad : ∃ b, (if s.fill < lastBlockTarget bpb bil s.fill then
+          poke s.buf s.fill (List.replicate (lastBlockTarget bpb bil s.fill - s.fill) (some 0))
+        else some s.buf) = some b ∧ b.length = s.buf.length ∧
+        b.take (lastBlockLen bpb bil s.fill) = lastBlock s bpb bil := by
+      by_cases hlt : s.fill < lastBlockTarget bpb bil s.fill
+      · simp only [hlt, if_true]
+        have hle : s.fill + (List.replicate (lastBlockTarget bpb bil s.fill - s.fill) (some (0:Nat))).length ≤ s.buf.length := by
+          simp only [List.length_replicate, CState.bufSize] at *; omega
+        refine ⟨_, poke_eq_some hle, poke_length (poke_eq_some hle), ?_⟩
+        have h1 := poke_take (poke_eq_some hle)
+        simp only [List.length_replicate] at h1 ⊢
+        have h2 : lastBlockLen bpb bil s.fill = s.fill + (lastBlockTarget bpb bil s.fill - s.fill) := by
+          unfold lastBlockLen; rw [if_pos hlt]; omega
+        have h3 : padLen bpb bil s.fill = lastBlockTarget bpb bil s.fill - s.fill := by
+          unfold padLen; rw [if_neg hf, h2]; omega
+        rw [h2, h1, lastBlock, h3]; rfl
+      · simp only [hlt, if_false]
+        have h2 : lastBlockLen bpb bil s.fill = s.fill := by unfold lastBlockLen; rw [if_neg hlt]
+        have h3 : padLen bpb bil s.fill = 0 := by unfold padLen; rw [if_neg hf, h2]; omega
+        exact ⟨_, rfl, rfl, by rw [h2, lastBlock, h3]; simp [pending]⟩
+    obtain ⟨b, hb1, hb2, hb3⟩ := hpad
+    rw [hb1]
+    simp only []
+    have hlen : lastBlockLen bpb bil s.fill ≤ b.length := by
+      rw [hb2]; simp only [CState.bufSize] at hbpb; omega
+    simp only [hlen, if_true]
+    rw [hb3]
+    have hT := flushLoop_taken W w (lastBlock s bpb bil)
+    have hSt := flushLoop_status W w (lastBlock s bpb bil)
+    have hRes := flushLoop_resumes W w (lastBlock s bpb bil)
+    have hOf := flushLoop_offers W w (lastBlock s bpb bil)
+    have hFl := flushLoop_full W w (lastBlock s bpb bil)
+    generalize flushLoop W w (lastBlock s bpb bil) = r at *
+    obtain ⟨ok, evs, w'⟩ := r
+    simp only [] at *
+    have hne : (lastBlock s bpb bil).length ≠ 0 := by
+      have : 0 < (pending s).length := by
+        simp only [pending, List.length_take]; simp only [WInv, CState.bufSize] at hw; omega
+      simp only [lastBlock, List.length_append]; omega
+    refine ⟨by cases ok <;> simp, ?_, hT.1, ?_, hRes, hOf, ?_, fun h => absurd h hf⟩
+    rotate_left 2
+    · intro hall; rw [hFl hall, if_neg hne, if_neg hf]
+    · intro h; apply hT.2; cases ok <;> simp_all
+    · rw [← hSt]; cases ok <;> simp
+
+/-! ### the events are the callback's successive answers -/
+
+/-- `Threads W w evs w'`: starting from callback state `w`, the events `evs` are
+exactly the callback's answers to the successive offers, and `w'` is its state
+afterwards (nothing else touches the callback). -/
+def Threads {σ : Type} (W : Writer σ) : σ → List Event → σ → Prop
+  | w, [], w' => w' = w
+  | w, e :: r, w' => e.ret = (W.ask w e.offer).1 ∧ Threads W (W.ask w e.offer).2 r w'
+
+theorem Threads.append {σ : Type} {W : Writer σ} : ∀ {w a w1 b w2}, Threads W w a w1 → Threads W w1 b w2 →
+    Threads W w (a ++ b) w2 := by
+  intro w a
+  induction a generalizing w with
+  | nil => intro w1 b w2 h1 h2; simp only [Threads] at h1; subst h1; simpa using h2
+  | cons e r ih => intro w1 b w2 ⟨h1, h2⟩ h3; exact ⟨h1, ih h2 h3⟩
+
+/-- A property of the callback state that every invocation preserves holds afterwards. -/
+theorem Threads.inv {σ : Type} {W : Writer σ} (P : σ → Prop) (hP : ∀ w o, P w → P (W.ask w o).2) :
+    ∀ {w evs w'}, Threads W w evs w' → P w → P w' := by
+  intro w evs
+  induction evs generalizing w with
+  | nil => intro w' h hp; simp only [Threads] at h; subst h; exact hp
+  | cons e r ih => intro w' ⟨_, h2⟩ hp; exact ih h2 (hP _ _ hp)
+
+theorem flushLoop_threads {σ : Type} (W : Writer σ) (w : σ) (p : List Cell) :
+    Threads W w (flushLoop W w p).2.1 (flushLoop W w p).2.2 := by
+  fun_induction flushLoop W w p with
+  | case1 w p hp => rfl
+  | case2 w p hp hr => exact ⟨rfl, rfl⟩
+  | case3 w p hp hr t ih => exact ⟨rfl, ih⟩
+
+theorem directLoop_threads {σ : Type} (W : Writer σ) (w : σ) (bs : Nat) (d : List Cell) :
+    Threads W w (directLoop W w bs d).2.2.1 (directLoop W w bs d).2.2.2 := by
+  fun_induction directLoop W w bs d with
+  | case1 w d hd hr => exact ⟨rfl, rfl⟩
+  | case2 w d hd hr t ih => exact ⟨rfl, ih⟩
+  | case3 w d hd => rfl
+
+theorem writeTail_threads {σ : Type} (W : Writer σ) (w : σ) (s : CState) (d : List Cell) :
+    Threads W w (writeTail W w s d).2.2.1 (writeTail W w s d).2.2.2 := by
+  have h := directLoop_threads W w s.bufSize d
+  unfold writeTail
+  simp only []
+  split
+  · exact h
+  · split
+    · split <;> exact h
+    · exact h
+
+theorem clientWrite_threads {σ : Type} (W : Writer σ) (w : σ) (s : CState) (d : List Cell) :
+    Threads W w (clientWrite W w s d).2.2.1 (clientWrite W w s d).2.2.2 := by
+  unfold clientWrite
+  by_cases hb : s.bufSize = 0
+  · simp only [hb, if_true]; exact flushLoop_threads W w d
+  · simp only [hb, if_false]
+    by_cases hf : s.bufSize - s.fill < s.bufSize
+    · simp only [hf, if_true]
+      generalize (if d.length > s.bufSize - s.fill then s.bufSize - s.fill else d.length) = toCopy
+      cases poke s.buf s.fill (d.take toCopy) with
+      | none => rfl
+      | some b =>
+        simp only []
+        by_cases hfull : s.bufSize - s.fill - toCopy = 0
+        · simp only [hfull, if_true]
+          split
+          · exact flushLoop_threads W w _
+          · exact Threads.append (flushLoop_threads W w _) (writeTail_threads W _ _ _)
+        · simp only [hfull, if_false]
+          exact writeTail_threads W w _ _
+    · simp only [hf, if_false]
+      exact writeTail_threads W w s d
+
+theorem clientClose_threads {σ : Type} (W : Writer σ) (w : σ) (s : CState) (bpb : Nat) (bil : Int) :
+    Threads W w (clientClose W w s bpb bil).2.1 (clientClose W w s bpb bil).2.2 := by
+  unfold clientClose
+  split
+  · simp only []
+    split
+    · rfl
+    · split
+      · exact flushLoop_threads W w _
+      · rfl
+  · rfl
+
+/-- For the scripted callback: the `i`-th event carries the `i`-th answer of the
+script, and the script is consumed one answer per invocation. -/
+theorem Threads.script : ∀ {sc evs sc'}, Threads scriptWriter sc evs sc' →
+    sc' = sc.drop evs.length ∧
+    ∀ i (h : i < evs.length) (h2 : i < sc.length),
+      evs[i].ret = (sc[i]).ret evs[i].offer.length := by
+  intro sc evs
+  induction evs generalizing sc with
+  | nil => intro sc' h; simp only [Threads] at h; subst h; exact ⟨by simp, fun i h => absurd h (by simp)⟩
+  | cons e r ih =>
+    intro sc' ⟨h1, h2⟩
+    cases sc with
+    | nil =>
+      have := ih h2
+      simp only [scriptWriter, Writer.ask] at this
+      exact ⟨by simpa using this.1, fun i _ h2 => absurd h2 (by simp)⟩
+    | cons a rest =>
+      have h3 := ih h2
+      have hret : ∀ n, a.ret n ≤ n := by
+        intro n
+        cases a with
+        | accept k =>
+          simp only [Ans.ret]
+          have : Nat.min k n ≤ n := Nat.min_le_right k n
+          exact Int.ofNat_le.mpr this
+        | zero => simp only [Ans.ret]; omega
+        | error => simp only [Ans.ret]; omega
+      have hask : (scriptWriter.ask (a :: rest) e.offer) = (a.ret e.offer.length, rest) := by
+        simp only [Writer.ask, scriptWriter]
+        have := hret e.offer.length
+        have hn : ¬ (a.ret e.offer.length > (e.offer.length : Int)) := by omega
+        simp only [hn, if_false]
+      rw [hask] at h3 h1
+      refine ⟨by simpa using h3.1, ?_⟩
+      intro i hi hi2
+      cases i with
+      | zero => simpa using h1
+      | succ j =>
+        simp only [List.getElem_cons_succ]
+        exact h3.2 j (by simpa using hi) (by simpa using hi2)
 
 end LA.CW
